@@ -180,11 +180,21 @@ class EvalBlocks:
         f = ed.EvalDeriv.construct_array_contraction
         npc = None
 
+        ref_norm = sh.norm_prim_cart
+
+        def same_norm(nrm):
+            # the primitive normalisation handed to the kernel is the shell's own (shared with the integral modules)
+            if not M.symbolic:
+                return bool(np.allclose(np.asarray(nrm, dtype=float), np.asarray(ref_norm, dtype=float), rtol=1e-14, atol=0))
+            from engine import alg, sym as S
+
+            return all(alg.v_equal(S.expand(S.lift(x)), S.expand(S.lift(y))) for x, y in zip(nrm.reshape(-1), ref_norm.reshape(-1)))
+
         def args_ok(c, orders):
             comps = sh.angmom_components_cart
             return (c[1] is pts and (c[2] is orders or (orders is None and not np.any(c[2]))) and c[3] is sh.coord
                     and np.array_equal(c[4], comps) and c[5] is sh.exps and c[6] is sh.coeffs
-                    and c[7].shape == (L, K))
+                    and c[7].shape == (L, K) and same_norm(c[7]))
 
         with bind.patched((ed, "_eval_deriv_contractions", gen), (ed, "_eval_first_second_order_deriv_contractions", direct),
                           (ev, "_eval_deriv_contractions", gen)):
